@@ -179,6 +179,9 @@ HOURLY_VALID = [
     {"elasticnet": {"max_iter": 1}}, {"elasticnet": {"tol": 1e-8}},
 ]
 HOURLY_INVALID = [
+    # cross-field: adaptive re-weighting needs BOTH its iteration cap and its tolerance
+    {"elasticnet": {"adaptive_weights": True, "adaptive_weight_max_iter": 10}}, {"elasticnet": {"adaptive_weights": True, "adaptive_weight_tol": 1e-4}},
+    {"elasticnet": {"adaptive_weights": True}},
     {"min_daily_training_hours": -1}, {"min_daily_training_hours": 25}, {"seed": -1}, {"scaling_method": "minmax"},
     {"temperature_bin": {"bin_width": 0.5}}, {"temperature_bin": {"n_bins": 5}}, {"temperature_bin": {"bin_width": None}},
     {"temperature_bin": {"method": "equal_bin_width", "n_bins": 6, "bin_width": None}},          # edge bins only with set_bin_width
